@@ -32,6 +32,8 @@ type Reply struct {
 type Ask struct {
 	Prompt string
 	Then   func(answer string) Reply
+	// Echo: the answer is echoed (a user-name prompt); default is hidden input.
+	Echo bool
 }
 
 // LineRec is one received line with the state the device was in.
@@ -66,6 +68,9 @@ type CLI struct {
 	Handler func(d *CLI, mode, line string) Reply
 	// Silent: when true the device swallows input without reacting (used after a planned stall).
 	Silent bool
+	// InitialAsk, if set, is what the device shows at open (after the banner) instead of a prompt:
+	// a login dialogue.
+	InitialAsk *Ask
 
 	Lines []LineRec
 
@@ -133,6 +138,11 @@ func (d *CLI) emitPrompt(c *Conn) {
 // Start implements Device.
 func (d *CLI) Start(c *Conn) {
 	EmitTokens(c, d.Banner)
+	if d.InitialAsk != nil {
+		d.ask = d.InitialAsk
+		c.Emit([]byte(d.ask.Prompt))
+		return
+	}
 	if !d.NoInitialPrompt {
 		d.emitPrompt(c)
 	}
@@ -154,7 +164,7 @@ func (d *CLI) Input(c *Conn, b []byte) {
 			continue
 		}
 		d.line = append(d.line, ch)
-		if d.ask == nil && !d.NoEcho {
+		if (d.ask == nil || d.ask.Echo) && !d.NoEcho {
 			// a terminal wraps when the next character is typed, not after the last one
 			if d.EchoWrapEvery > 0 && d.echoed > 0 && d.echoed%d.EchoWrapEvery == 0 {
 				c.Emit([]byte(d.EchoWrap))
@@ -174,7 +184,7 @@ func (d *CLI) endOfLine(c *Conn) {
 	d.echoed = 0
 	sp := d.cur
 	d.cur = Span{}
-	if line == "" || d.ask != nil || d.NoEcho {
+	if line == "" || (d.ask != nil && !d.ask.Echo) || d.NoEcho {
 		sp.EchoS = c.Generated()
 	}
 	sp.EchoE = c.Generated()
